@@ -106,7 +106,7 @@ def run(ctx):
     if os.path.exists(os.path.join(lib.ROOT, 'checks', 'c03b_util.py')):
         from . import c03b_util
         sel = [(c, d) for c, d in zip(dump_cases, dres) if d is not None and not d.startswith('CRASH')]
-        if not ctx.thorough and len(sel) > 1500: sel = ctx.rng.sample(sel, 1500)
+        if not ctx.thorough and len(sel) > 800: sel = ctx.rng.sample(sel, 800)
         c03b_util.reader_value_check(ctx, c03b_util.items_from_c03([c for c, _ in sel], [d for _, d in sel]))
     mres = ctx.run_model('builder', dec_lines) if dec_lines else []
     for c, (name, line), d, dl, m in zip(dump_cases, dump_items, dres, dec_lines, mres):
